@@ -88,6 +88,10 @@ func RunChild(sc *Scenario, timeout time.Duration) (*Result, error) {
 	if timedOut {
 		return res, fmt.Errorf("child driver exceeded %v", timeout)
 	}
+	if res.ExitCode == 4 {
+		// the driver itself could not set the scenario up (no free port, temp dir, unreadable scenario): infrastructure
+		return res, fmt.Errorf("child driver could not run the scenario: %s", tail(res.Stderr, 300))
+	}
 	if !res.Done {
 		res.Died = true
 	}
